@@ -54,7 +54,7 @@ def run(ctx):
     ctx.log("layout: %d files decoded, magic reading found: %s" % (len(lines), magic_seen))
 
     # 2. same segment, same frozen instant: Rust client vs C library (static lib, ASan+UBSan)
-    n2, v2, info = client.c_parity(ctx, csim, cdrv, "C17", 150000 if q else 3000000, ["C17"])
+    n2, v2, info = client.c_parity(ctx, csim, cdrv, "C17", 150000 if q else 1000000, ["C17"])
     viol += v2
     ctx.log("static libclockbound parity: %d vectors %s" % (n2, info))
     info_so = None
